@@ -1,5 +1,5 @@
 (** * FenImpl: executable model of the engine's FEN reader and writer (C16, first half)
-      position.setupBoard   /repo/internal/position/position.go:966-1119
+      position.setupBoard   /repo/internal/position/position.go:966-1142
       position.fen          /repo/internal/position/position.go:908-949
       types.PieceFromChar (piece.go:115), types.MakeSquare (square.go:125), types.SquareOf
       (square.go:148), CastlingRights.String (castlingrights.go:73), Square.String
@@ -42,17 +42,18 @@ Record fpos := mkfpos {
 
 Inductive result := Ok (p : fpos) | Err (e : N) | Panic.
 
-(** error sites of setupBoard (the [e] of [Err e]):
-    1  :980  "fen position contains invalid characters"
+(** error sites of setupBoard (the [e] of [Err e]; line numbers of position.go at the modelled
+    revision "fix: FEN setup rejects negative clocks and absurd move numbers"):
+    1  :981  "fen position contains invalid characters"
     2  :995  "too many squares in a rank" (digit)        3  :1000 "rank ... not complete or too many ranks"
     4  :1008 "invalid piece character"                    5  :1012 "too many squares in a rank" (piece)
     6  :1020 "not reached last square (h1)"               7  :1024 "needs exactly one king of each color"
     8  :1038 next player                                  9  :1057 castling rights
     10 :1082 en passant (regex)                           11 :1087 en passant not on rank 3 or 6
-    12 :1115 half move clock (Atoi error)                 13 :1134 move number (Atoi error)
-    16 :1108 "half move clock must not be negative"       17 :1124 "move number is out of range"
-    15 :1100 "en passant square does not fit the position"
-    14 :1135 "the side not to move is in check" *)
+    15 :1098 "en passant square does not fit the position"
+    12 :1112 half move clock (Atoi error)                 16 :1108 "half move clock must not be negative"
+    13 :1130 move number (Atoi error)                     17 :1122 "move number is out of range"
+    14 :1136 "the side not to move is in check" *)
 
 (** ** Go int (64 bit two's complement) *)
 Definition two63 : Z := 9223372036854775808%Z.
@@ -250,7 +251,7 @@ Definition cr_field (o : option str) : option N :=
   | Some s => if cr_regex s then Some (fold_left (fun acc c => N.lor acc (cr_bit c)) s 0) else None
   end.
 
-(* :1079-1106  regexEnPassant = "^([a-h][1-8]|-)$", MakeSquare, rank 3 / 6 test, and the test
+(* :1079-1102  regexEnPassant = "^([a-h][1-8]|-)$", MakeSquare, rank 3 / 6 test, and the test
    that the square fits the position: it is on rank 6 when White is to move (rank 3 for
    Black), it is empty, and the square behind it (seen from the side to move) holds a pawn
    of the side which has just moved.  Go's || evaluates left to right and stops early. *)
@@ -294,7 +295,7 @@ Definition ep_field (o : option str) (side : N) (b : list N) : eres :=
               end
   end.
 
-(* half move clock, :1105-1117: Atoi error (12), negative (16) *)
+(* half move clock, :1104-1115: Atoi error (12), negative (16) *)
 Definition hmc_field (o : option str) : N + Z :=
   match o with
   | None => inr 0%Z
@@ -304,7 +305,7 @@ Definition hmc_field (o : option str) : N + Z :=
               end
   end.
 
-(* move number, :1119-1135 ; [nhm0] is the value set at :1029 / :1048.  With 1 <= m' <= 10^6
+(* move number, :1117-1132 ; [nhm0] is the value set at :1029 / :1048.  With 1 <= m' <= 10^6
    the expression 2*m' - (1 - nextPlayer) cannot leave the int range: no wrap-around *)
 Definition max_move_number : Z := 1000000%Z.
 Definition mn_field (o : option str) (side : N) (nhm0 : Z) : N + Z :=
@@ -313,9 +314,9 @@ Definition mn_field (o : option str) (side : N) (nhm0 : Z) : N + Z :=
   | Some s => match atoi s with
               | None => inl 13
               | Some m =>
-                  if (m <? 0)%Z || (max_move_number <? m)%Z then inl 17       (* :1123-1126 *)
-                  else let m' := if (m =? 0)%Z then 1%Z else m in           (* :1127-1129 *)
-                       inr (2 * m' - (1 - Z.of_N side))%Z                   (* :1130 *)
+                  if (m <? 0)%Z || (max_move_number <? m)%Z then inl 17       (* :1121-1124 *)
+                  else let m' := if (m =? 0)%Z then 1%Z else m in           (* :1125-1127 *)
+                       inr (2 * m' - (1 - Z.of_N side))%Z                   (* :1128 *)
               end
   end.
 
@@ -438,6 +439,23 @@ Definition ep_wf (p : fpos) : bool :=
 Definition not_in_check (p : fpos) : bool :=
   negb (is_attacked_spec (mkpos (f_board p) (f_side p) (f_cr p) (f_ep p) 0 0)
                          (king_sq (f_board p) (1 - f_side p)) (f_side p)).
+(* the part of well-formedness that does not concern the two clocks *)
+Definition fstruct (p : fpos) : bool :=
+  Nat.eqb (length (f_board p)) 64
+  && forallb cell_ok (f_board p)
+  && Nat.eqb (count_code (f_board p) 1) 1 && Nat.eqb (count_code (f_board p) 9) 1
+  && (f_side p <? 2) && (f_cr p <? 16)
+  && ep_wf p && not_in_check p.
+
+(* what setupBoard makes of the output of fen() for a position with [fstruct] (FenProofs.
+   setup_fen_of_gen): only the clocks can make it fail or differ *)
+Definition reparse (p : fpos) : result :=
+  if (f_hmc p <? 0)%Z then Err 16 else
+  let m := move_number (f_nhm p) in
+  if (m <? 0)%Z || (max_move_number <? m)%Z then Err 17 else
+  Ok (mkfpos (f_board p) (f_side p) (f_cr p) (f_ep p) (f_hmc p)
+             (2 * (if (m =? 0)%Z then 1 else m) - (1 - Z.of_N (f_side p)))%Z).
+
 Definition fpos_wf (p : fpos) : bool :=
   Nat.eqb (length (f_board p)) 64
   && forallb cell_ok (f_board p)
